@@ -35,6 +35,50 @@ SIG_REUSE = 'C19:reuse-accepted'                 # an attached node was accepted
 SIG_REUSE_CHILD = 'C19:reuse-accepted:child-spanning-free-parent'   # D15 (known finding)
 
 
+# ---- private state of wrappers, found by TYPE / public shape rather than by private attribute name ------------
+UNOBSERVABLE = [0]      # how often private state could not be found (a harmless rename): that comparison is skipped
+
+
+def rep_of(w):
+    """The Repeated model behind a repeated-field wrapper."""
+    from autobean_refactor.models.internal.repeated import Repeated
+    v = getattr(w, '_repeated', None)
+    if isinstance(v, Repeated):
+        return v
+    for v in list(getattr(w, '__dict__', {}).values()):
+        if isinstance(v, Repeated):
+            return v
+    UNOBSERVABLE[0] += 1
+    return None
+
+
+def seps_of(w, parent=None, name=None):
+    """(separators, separators_before) of a repeated-field wrapper: token tuples. Looked up on the wrapper (old
+    private names), else on any object reachable from the wrapper / the descriptor that exposes the PUBLIC field
+    properties `separators` and `separators_before`."""
+    a, b = getattr(w, '_separators', None), getattr(w, '_separators_before', None)
+    if isinstance(a, tuple) and isinstance(b, tuple):
+        return a, b
+    cands = list(getattr(w, '__dict__', {}).values())
+    if parent is not None and name is not None:
+        for cls in type(parent).__mro__:
+            d = vars(cls).get(name)
+            if d is not None:
+                cands += list(getattr(d, '__dict__', {}).values())
+                for x in list(getattr(d, '__dict__', {}).values()):
+                    cands += list(getattr(x, '__dict__', {}).values()) if hasattr(x, '__dict__') else []
+                break
+    for v in cands:
+        try:
+            sa, sb = getattr(v, 'separators', None), getattr(v, 'separators_before', None)
+        except Exception:
+            continue
+        if isinstance(sa, tuple) and (sb is None or isinstance(sb, tuple)) and not hasattr(v, 'append'):
+            return sa, (sb if sb is not None else sa)
+    UNOBSERVABLE[0] += 1
+    return None
+
+
 def _mods():
     from autobean_refactor import models
     from autobean_refactor.models import base
@@ -429,7 +473,7 @@ def call(root, op, want_corr=True):
             desc = dict((n, d) for n, _, d in slots_of(parent))[name]
             if kind == 'rep':
                 w = getattr(parent, name)
-                rep = w._repeated
+                rep = rep_of(w)
                 citems = [(ids.get(it.first_token), ids.get(it.last_token)) for it in rep.items]
                 ph = ids.get(rep.placeholder)
                 if op['op'] == 'setitem' and values:
@@ -437,8 +481,9 @@ def call(root, op, want_corr=True):
                         info['same'] = rep.items[op['i']] is values[0]
                     except IndexError:
                         info['same'] = False
-                seps = [coq_sep(t) for t in w._separators]
-                sepsb = [coq_sep(t) for t in w._separators_before]
+                sp = seps_of(w, parent, name)
+                seps = [coq_sep(t) for t in sp[0]]
+                sepsb = [coq_sep(t) for t in sp[1]]
             else:
                 cur = getattr(parent, name)
                 citems = [(ids.get(cur.first_token), ids.get(cur.last_token))] if cur is not None else []
@@ -580,7 +625,7 @@ def call(root, op, want_corr=True):
             pos1 = {id(t): i for i, t in enumerate(T1)}
             cdoc1 = ['(%s, %s, %s)' % (common.coq_z(ids.known(t)), kind_of(t), common.coq_str(t.raw_text)) for t in T1]
             if kind == 'rep':
-                its = getattr(parent, name)._repeated.items
+                its = rep_of(getattr(parent, name)).items
             else:
                 cur = getattr(parent, name)
                 its = [cur] if cur is not None else []
@@ -824,8 +869,11 @@ def _frame_monitor(findings, op, parent, name, raw_slot, T0, T1, texts0, pf0, pl
         if skind != 'rep':
             continue
         w = getattr(parent, sname)
-        items = w._repeated.items
-        need_text = any(t.raw_text for t in w._separators)
+        rp, sp = rep_of(w), seps_of(w, parent, sname)
+        if rp is None or sp is None:
+            continue        # private state renamed: this layout comparison is skipped (counted), behaviour still checked
+        items = rp.items
+        need_text = any(t.raw_text for t in sp[0])
         for x, y in zip(items, items[1:]):
             i, j = pos1.get(id(x.last_token)), pos1.get(id(y.first_token))
             if i is None or j is None or j <= i:
@@ -1574,6 +1622,17 @@ CORPUS += [(_STRESS_TEXT, _STRESS, lf) for lf in (2, 3, 4, 5)]
 
 def run_slots(ctx: common.Ctx, props, n_docs: int, n_ops: int):
     """props: which monitor signatures belong to the calling property ('C03' and/or 'C19')"""
+    try:
+        return _run_slots(ctx, props, n_docs, n_ops)
+    finally:
+        if UNOBSERVABLE[0]:
+            ctx.count('private_state_unobservable', UNOBSERVABLE[0])
+            ctx.notes.append('private wrapper state (separators / Repeated) was not found under the known names or shapes: '
+                             'those comparisons were skipped; behaviour (tokens, texts, exceptions) is still compared')
+            UNOBSERVABLE[0] = 0
+
+
+def _run_slots(ctx: common.Ctx, props, n_docs: int, n_ops: int):
     rng = ctx.rng
     cases, case_meta = [], []
     reported = set()
@@ -1583,6 +1642,14 @@ def run_slots(ctx: common.Ctx, props, n_docs: int, n_ops: int):
         try:
             findings, cs = replay_script(text, script, clf)
         except Exception as e:
+            import traceback
+            tb = traceback.extract_tb(e.__traceback__)
+            if tb and tb[-1].filename.startswith('/verif/'):
+                # the HARNESS could not observe the run (it read private state that is no longer there): that is a
+                # broken tie, never a counter-example
+                ctx.fail('tie', 'harness-observation', f'corpus script could not be observed ({type(e).__name__}: {e} at '
+                                                       f'{tb[-1].filename}:{tb[-1].lineno})', {'text': text, 'script': script})
+                continue
             findings, cs = [('C03:frame', 'corpus script crashed: ' + type(e).__name__),
                             ('C19:refusal-not-atomic', 'corpus script crashed: ' + type(e).__name__)], []
         ctx.dist('corpus')
